@@ -24,8 +24,32 @@ fn main() {
                 }
             }
         }
+        Some("canon") => {
+            // resolves the given files together in the given order; one JSON line per module (or one error line)
+            use asn1rs_model::asn::MultiModuleResolver;
+            use asn1rs_model::parse::Tokenizer;
+            use asn1rs_model::Model;
+            let r = vharness::util::guarded(|| -> Result<Vec<serde_json::Value>, String> {
+                let mut res = MultiModuleResolver::default();
+                for f in &args[2..] {
+                    let text = std::fs::read_to_string(f).expect("read");
+                    res.push(Model::try_from(Tokenizer.parse(&text)).map_err(|e| format!("parse: {}", e))?);
+                }
+                let models = res.try_resolve_all().map_err(|e| format!("resolve: {}", e))?;
+                Ok(models.iter().map(vharness::canon::model).collect())
+            });
+            match r {
+                Err(p) => println!("{}", json!({"error": format!("panic: {}", p)})),
+                Ok(Err(e)) => println!("{}", json!({"error": e})),
+                Ok(Ok(ms)) => {
+                    for m in ms {
+                        println!("{}", m);
+                    }
+                }
+            }
+        }
         _ => {
-            eprintln!("usage: frontend pipeline <files>");
+            eprintln!("usage: frontend pipeline|canon <files>");
             std::process::exit(2);
         }
     }
